@@ -404,8 +404,11 @@ class KeyedSet(Generic[ItemType, KeyType], MutableSet, KeyedBase):  # pylint: di
         return self._dict.get(key, default)
 
     def __getitem__(self, key):
-        if key in self._dict:
-            return self._dict[key]
+        try:
+            if key in self._dict:
+                return self._dict[key]
+        except TypeError:  # unhashable items can still be looked up by their key
+            pass
         item_key = self.key(key)
         if item_key in self._dict:
             return self._dict[item_key]
